@@ -50,6 +50,16 @@ func (c *opsCollector) Add(in interface{}) error {
 	}
 	var b []byte
 	switch v := in.(type) {
+	case *events.PerformanceHDR:
+		// the histogram recorders hand over their live point (under their own lock): the number of recorded operations is
+		// read directly, marshalling every histogram on every tick is far too slow
+		c.mu.Lock()
+		c.ops = append(c.ops, v.Counters.Operations.TotalCount())
+		if c.closed {
+			c.late++
+		}
+		c.mu.Unlock()
+		return nil
 	case birch.DocumentMarshaler:
 		d, err := v.MarshalDocument()
 		if err != nil {
@@ -112,11 +122,15 @@ func cmdSchedRec(o *Out, line string, f []string) {
 	switch kind {
 	case "interval":
 		rec = events.NewIntervalRecorder(ctx, coll, time.Duration(tickUs)*time.Microsecond)
+	case "histInterval":
+		rec = events.NewIntervalHistogramRecorder(ctx, coll, time.Duration(tickUs)*time.Microsecond)
 	case "sync":
 		rec = events.NewSynchronizedRecorder(events.NewRawRecorder(coll))
 	default:
 		panic(kind)
 	}
+	// concurrent begin: every worker opens the iteration itself, all at the same moment, instead of the main goroutine
+	concBegin := len(f) > 8 && f[8] == "cb"
 	var finals []string
 	var endErrs int
 	for c := 0; c < cycles; c++ {
@@ -124,12 +138,19 @@ func cmdSchedRec(o *Out, line string, f []string) {
 		before := len(coll.ops)
 		coll.closed = false
 		coll.mu.Unlock()
-		rec.BeginIteration()
+		if !concBegin {
+			rec.BeginIteration()
+		}
 		var wg sync.WaitGroup
+		gate := make(chan struct{})
 		for g := 0; g < G; g++ {
 			wg.Add(1)
 			go func(g int) {
 				defer wg.Done()
+				if concBegin {
+					<-gate
+					rec.BeginIteration()
+				}
 				for m := 0; m < M; m++ {
 					rec.IncOperations(1)
 					if m%7 == 0 {
@@ -138,6 +159,7 @@ func cmdSchedRec(o *Out, line string, f []string) {
 				}
 			}(g)
 		}
+		close(gate)
 		wg.Wait()
 		if stallMs > 0 {
 			// let a tick arrive so that the flusher is between its tick and the mutex when EndTest runs
@@ -453,12 +475,24 @@ func streamSchedRec(o *Out, rng *rand.Rand, thorough bool, _ []string) {
 		lines = append(lines, fmt.Sprintf("sched-rec-overlap %s %d %d %d %d", []string{"sync", "interval"}[i%2], 2+rng.Intn(7), 200+rng.Intn(3000),
 			[]int{50, 100, 500}[rng.Intn(3)], []int64{0, 1 + rng.Int63n(1<<30)}[rng.Intn(2)]))
 	}
+	// many short cycles, every one opened by all workers at the same moment (the first BeginIteration of a cycle is the
+	// one that starts the flusher): both interval recorders, several widths
+	nb := 3
+	if thorough {
+		nb = 30
+	}
+	for i := 0; i < nb; i++ {
+		for _, kind := range []string{"interval", "histInterval"} {
+			lines = append(lines, fmt.Sprintf("sched-rec %s %d %d %d %d 0 0 0 cb", kind, []int{8, 4, 16}[i%3], 1+rng.Intn(3), 300+rng.Intn(300),
+				[]int{200, 50, 1000}[rng.Intn(3)]))
+		}
+	}
 	n := 40
 	if thorough {
 		n = 600
 	}
 	for i := 0; i < n; i++ {
-		kind := []string{"interval", "interval", "sync"}[rng.Intn(3)]
+		kind := []string{"interval", "histInterval", "sync"}[rng.Intn(3)]
 		G := 1 + rng.Intn(8)
 		M := 1 + rng.Intn(60)
 		cycles := 1 + rng.Intn(6)
@@ -478,7 +512,19 @@ func streamSchedRec(o *Out, rng *rand.Rand, thorough bool, _ []string) {
 				M = 20
 			}
 		}
-		lines = append(lines, fmt.Sprintf("sched-rec %s %d %d %d %d %d %d %d", kind, G, M, cycles, tick, stall, seed, slow))
+		cb := "-"
+		if rng.Intn(2) == 0 {
+			cb = "cb"
+			if G < 2 {
+				G = 2 + rng.Intn(7)
+			}
+			if rng.Intn(2) == 0 {
+				// many short cycles: the moment at which two goroutines open a fresh cycle together is what is explored
+				cycles, M, stall, slow = 100+rng.Intn(200), 1+rng.Intn(4), 0, 0
+				G = 4 + rng.Intn(5)
+			}
+		}
+		lines = append(lines, fmt.Sprintf("sched-rec %s %d %d %d %d %d %d %d %s", kind, G, M, cycles, tick, stall, seed, slow, cb))
 	}
 	runIsolated(o, lines, 20*time.Second)
 }
